@@ -64,8 +64,8 @@ Definition check_transformer (s : site) (tr : transformer) : bool :=
   && Qltb 0 L
   (* three secondary phases at 120 V line-to-neutral carry at most the rated capacity *)
   && Qleb (3 * 120 * L) (1000 * t_cap tr * (1 + eps50))
-  (* and the limit is the (regenerated) formula of the factory evaluated at that capacity *)
-  && Qleb (Qabs (L - site_formula (s_kind s) (t_cap tr))) (eps50 * L).
+  (* and the limit is at most the (regenerated) formula of the factory evaluated at that capacity *)
+  && Qleb L (site_formula (s_kind s) (t_cap tr) * (1 + eps50)).
 
 (* pod: a 0/1 indicator row over stations of one phase group *)
 Fixpoint pod_row_ok (g : Q) (ph a : list Q) : bool :=
@@ -74,16 +74,24 @@ Fixpoint pod_row_ok (g : Q) (ph a : list Q) : bool :=
   | [], [] => true
   | _, _ => false
   end.
-Definition check_pod (s : site) (j : nat) : bool :=
+Definition nonzero_flags (a : list Q) : list bool := map (fun x => negb (qeq x 0)) a.
+Definition check_pod (s : site) (pd : nat * Q * list nat) : bool :=
+  let '(j, rating, members) := pd in
   Nat.ltb j (n_site_rows s) && Nat.eqb (length (s_limits s)) (n_site_rows s) && Qltb 0 (site_limit s j)
-  && existsb (fun g => pod_row_ok g (s_phases s) (site_row s j)) [30; -90; 150].
+  && existsb (fun g => pod_row_ok g (s_phases s) (site_row s j)) [30; -90; 150]
+  (* the row constrains exactly the documented stations, to at most the documented rating *)
+  && list_eqb Bool.eqb (nonzero_flags (site_row s j)) (member_flags (n_site_stations s) members)
+  && Qleb (site_limit s j) rating.
 
 (* sub-panel: three line-current rows (delta pattern over the panel's own stations) *)
 Definition panel_flags (a b c : list Q) : list bool :=
   map (fun t => negb (zero3 (fst (fst t)) (snd (fst t)) (snd t))) (combine (combine a b) c).
-Definition check_panel (s : site) (p : nat * nat * nat) : bool :=
-  let '(ja, jb, jc) := p in
+Definition check_panel (s : site) (pn : (nat * nat * nat) * Q * list nat) : bool :=
+  let '((ja, jb, jc), rating, members) := pn in
   let M := n_site_rows s in
+  list_eqb Bool.eqb (panel_flags (site_row s ja) (site_row s jb) (site_row s jc))
+           (member_flags (n_site_stations s) members)
+  && Qleb (site_limit s ja) rating &&
   Nat.ltb ja M && Nat.ltb jb M && Nat.ltb jc M
   && Nat.eqb (length (s_limits s)) M
   && delta_rows_ok (s_phases s) (site_row s ja) (site_row s jb) (site_row s jc)
@@ -121,8 +129,8 @@ Definition check_covered (s : site) : bool :=
 Definition classified_rows (s : site) : list nat :=
   flat_map (fun tr => [t_a tr; t_b tr; t_c tr]) (s_transformers s)
   ++ flat_map (fun p => let '((a, b, c), _) := p in [a; b; c]) (s_primaries s)
-  ++ flat_map (fun p => let '(a, b, c) := p in [a; b; c]) (s_panels s)
-  ++ s_pods s.
+  ++ flat_map (fun p => let '((a, b, c), _, _) := p in [a; b; c]) (s_panels s)
+  ++ map (fun p => fst (fst p)) (s_pods s).
 
 Definition check_shape (s : site) : bool :=
   let N := n_site_stations s in
@@ -151,7 +159,7 @@ Definition same_structure (s1 s2 : site) : bool :=
   list_eqb qeq (s_phases s1) (s_phases s2)
   && list_eqb (list_eqb qeq) (s_rows s1) (s_rows s2)
   && list_eqb tr_same (s_transformers s1) (s_transformers s2)
-  && list_eqb Nat.eqb (s_pods s1) (s_pods s2).
+  && list_eqb Nat.eqb (map (fun p => fst (fst p)) (s_pods s1)) (map (fun p => fst (fst p)) (s_pods s2)).
 Definition check_family (l : list site) : bool :=
   match l with
   | [] => false
@@ -184,7 +192,7 @@ Fixpoint sum_sel (sel : list bool) (X : list (list R)) (t : nat) : R :=
 Definition station_sum (s : site) (members : list nat) (X : list (list R)) (t : nat) : R :=
   sum_sel (member_flags (n_site_stations s) members) X t.
 Definition row_sum (s : site) (j : nat) (X : list (list R)) (t : nat) : R :=
-  sum_sel (map (fun x => negb (qeq x 0)) (site_row s j)) X t.
+  sum_sel (nonzero_flags (site_row s j)) X t.
 
 (* ------------------------------------------------------------------ correspondence (Q) *)
 Fixpoint qsum_sel (sel : list bool) (V : list Q) (X : list (list Q)) (t : nat) : Q :=
